@@ -12,7 +12,7 @@ VARIABLES G, ph, idx      \* ph = 0: seed states (spread over the workers), ph =
 
 VV       == 0..(N - 1)
 AllEdges == {e \in SUBSET VV : Cardinality(e) = 2}
-AllGraphs == UNION {[E -> W] : E \in SUBSET AllEdges}
+GraphsOn(EE) == UNION {[E -> W] : E \in SUBSET EE}     \* (an operator: TLC evaluates constant definitions eagerly)
 
 (* seeded sample: x -> 75 x + 74 mod 65537; one draw per possible edge; per graph a density class *)
 Seed  == atoi(IOEnv.COLLAPSE_SEED)
@@ -36,7 +36,7 @@ SampleGraph(kk) ==
 vars == <<G, ph, idx>>
 SeedEdges == {EdgeSeq[i] : i \in 1..2}
 Init == /\ ph = 0
-        /\ IF Count = 0 THEN idx = 0 /\ G \in {H \in AllGraphs : \A e \in DOMAIN H \ SeedEdges : H[e] = Min(W)}
+        /\ IF Count = 0 THEN idx = 0 /\ G \in {H \in GraphsOn(AllEdges) : \A e \in DOMAIN H \ SeedEdges : H[e] = Min(W)}
                         ELSE idx \in 1..Count /\ G = <<>>
 Next == /\ ph = 0 /\ ph' = 1 /\ idx' = idx
         /\ IF Count = 0 THEN G' \in {H \in [DOMAIN G -> W] : \A e \in DOMAIN G \cap SeedEdges : H[e] = G[e]} ELSE G' = SampleGraph(idx)
@@ -55,6 +55,7 @@ EmitCase == ph = 1 =>
 (* theorems *)
 CellsG(p) == LET F == FlagF(VV, G) IN FlagCells(F, FSeq(F), p)
 (* the flag filtration is a filtered chain complex: faces first, boundary of boundary zero *)
+ThCliques == ph = 1 => FlagCliques(VV, DOMAIN G) = Cliques(VV, DOMAIN G, N)
 ThWellFormed == ph = 1 => \A p \in Primes : WellFormed(CellsG(p), p)
 (* the strict driver computes the reduction of Persistence.tla *)
 ThStrict == ph = 1 => \A p \in Primes : StrictReduced(CellsG(p), p) = AlgReduced(CellsG(p), p)
